@@ -3,6 +3,7 @@ package main
 import (
 	"fmt"
 	"go/ast"
+	"go/token"
 	"go/types"
 	"sort"
 	"strings"
@@ -13,7 +14,7 @@ import (
 func init() {
 	register(&propDef{
 		ID:          "C13",
-		Explanation: "The children slot is a mutable field of the shared per-render context value; the property is a typestate (the slot is empty whenever a callee that was given no block starts). Decides: R1 every emitted template body reads the slot into a local and clears it before rendering any node, child-block closures leave it alone, and `{ children... }` renders that local (GEM, all emission paths); R2 templ.WithChildren is emitted only around the ctx of a block call and carries the closure emitted for that very call, calls without a block pass ctx unchanged, and the dispatcher routes calls without children to the plain emission; R3 every hand-written component body in packages templ and templ/runtime that renders other components or reads the slot clears it first, on every path (go/cfg dominance); R4 after a block call returns the slot is empty — the call-site emission clears it or every in-repo component body does. R6 a render has one state object: it is stored under the context key by InitializeContext only (and only when absent) and never copied by value, so clearing the children slot is seen by the whole render. NOT decided: rendered bytes of concrete call trees; user-written components outside this module.",
+		Explanation: "The children slot is a mutable field of the shared per-render context value; the property is a typestate (the slot is empty whenever a callee that was given no block starts). Decides: R1 every emitted template body reads the slot into a local and clears it before rendering any node, child-block closures leave it alone, and `{ children... }` renders that local (GEM, all emission paths); R2 templ.WithChildren is emitted only around the ctx of a block call and carries the closure emitted for that very call, calls without a block pass ctx unchanged, and the dispatcher routes calls without children to the plain emission; R3 every hand-written component body in packages templ and templ/runtime that renders other components or reads the slot clears it first, on every path (go/cfg dominance); R4 after a block call returns the slot is empty — the call-site emission clears it or every in-repo component body does. R6 a render has one state object: it is stored under the context key by InitializeContext only (and only when absent) and never copied by value, so clearing the children slot is seen by the whole render. R7 (= C10.R4) a child block renders into a buffer acquired for the writer its caller hands it, so the block's HTML appears where the callee places its slot; R8 the parser decides that a call has a child block only from a brace on the call's own line (the lookahead skips spaces and tabs, not line breaks). NOT decided: rendered bytes of concrete call trees; user-written components outside this module.",
 		Assumptions: []string{"components outside this module follow the same read-then-clear discipline as generated code"},
 		Trusted:     []string{"go/types", "go/parser", "x/tools go/packages, go/cfg"},
 		Run:         runC13,
@@ -21,8 +22,10 @@ func init() {
 }
 
 func runC13(c *Ctx) {
-	c.load(".", "./runtime", "./generator")
+	c.load(".", "./runtime", "./generator", "./parser/v2")
 	renderStateSingle(c, "C13.R6")
+	gBufferOwnership(c, "C13.R7")
+	blockBraceOnSameLine(c, "C13.R8")
 	gChildrenSlot(c, "C13.R1")
 	gWithChildren(c, "C13.R2")
 	handWrittenComponents(c)
@@ -286,4 +289,93 @@ func handWrittenComponents(c *Ctx) {
 	c.check(siteClears || len(nonClearing) == 0, "C13.R4", site.Key+"|slot-empty-after-block-call", c.pos(site.Decl.Pos()),
 		"after a block call the slot is empty",
 		fmt.Sprintf("the block-call emission does not clear the children slot after the call, and these in-repo component bodies return without clearing it: %s — a block passed to one of them is rendered by the next sibling that is called without a block", strings.Join(nonClearing, ", ")))
+}
+
+// blockBraceOnSameLine: C13.R8 — whether a component call has a child block is decided by a brace on the SAME line as
+// the call. If the parser that looks for the opening brace also skips line breaks, a `{ children... }` or `{ expr }`
+// placed on the line after a block-less `@call()` is swallowed as that call's block: the callee receives text it was
+// never given and the enclosing layout's own slot is not rendered.
+func blockBraceOnSameLine(c *Ctx, rule string) {
+	pp := c.pkg("parser/v2")
+	info := pp.TypesInfo
+	inits := map[types.Object]ast.Expr{}
+	for _, f := range pp.Syntax {
+		for _, d := range f.Decls {
+			if gd, ok := d.(*ast.GenDecl); ok && gd.Tok == token.VAR {
+				for _, sp := range gd.Specs {
+					vs := sp.(*ast.ValueSpec)
+					for i, nm := range vs.Names {
+						if i < len(vs.Values) {
+							inits[info.Defs[nm]] = vs.Values[i]
+						}
+					}
+				}
+			}
+		}
+	}
+	var components func(e ast.Expr, depth int) []string
+	components = func(e ast.Expr, depth int) []string {
+		e = ast.Unparen(e)
+		if id, ok := e.(*ast.Ident); ok {
+			if in, ok := inits[info.ObjectOf(id)]; ok && depth < 6 {
+				sub := components(in, depth+1)
+				if len(sub) > 0 {
+					return sub
+				}
+			}
+			return []string{id.Name}
+		}
+		if call, ok := e.(*ast.CallExpr); ok {
+			name := types.ExprString(call.Fun)
+			if strings.HasSuffix(name, "StringFrom") || strings.HasSuffix(name, ".All") || strings.HasSuffix(name, "SequenceOf2") || strings.HasSuffix(name, "SequenceOf3") {
+				var out []string
+				for _, a := range call.Args {
+					out = append(out, components(a, depth+1)...)
+				}
+				return out
+			}
+			return []string{types.ExprString(call)}
+		}
+		return []string{types.ExprString(e)}
+	}
+	n := 0
+	for _, fd := range allFuncDecls(pp) {
+		if fd.Recv == nil || !strings.HasPrefix(recvTypeName(fd.Recv.List[0].Type), "templElementExpression") {
+			continue
+		}
+		ast.Inspect(fd.Body, func(x ast.Node) bool {
+			as, ok := x.(*ast.AssignStmt)
+			if !ok || len(as.Rhs) != 1 || len(as.Lhs) != 3 {
+				return true
+			}
+			okID, isID := as.Lhs[1].(*ast.Ident)
+			if !isID || !strings.Contains(strings.ToLower(okID.Name), "brace") {
+				return true
+			}
+			call, ok := as.Rhs[0].(*ast.CallExpr)
+			if !ok {
+				return true
+			}
+			se, ok := call.Fun.(*ast.SelectorExpr)
+			if !ok || se.Sel.Name != "Parse" {
+				return true
+			}
+			n++
+			comps := components(se.X, 0)
+			bad := ""
+			for _, cpt := range comps {
+				if strings.Contains(cpt, "openBrace") || cpt == "'{'" || cpt == `"{"` {
+					break
+				}
+				if strings.Contains(cpt, "Whitespace") || strings.Contains(cpt, "NewLine") {
+					bad = cpt
+				}
+			}
+			c.check(bad == "", rule, funcKey(pp, fd)+"|block-brace-on-the-call-line", c.pos(as.Pos()), "the opening brace of a child block is looked for after spaces/tabs only: "+strings.Join(comps, " "),
+				fmt.Sprintf("%s looks for the brace that opens a child block with %s, which skips %s (line breaks included): a `{ children... }` or `{ expr }` on the line after a block-less @call() becomes that call's child block — the callee is handed a block nobody passed to it, and the enclosing component's own slot is not rendered", fd.Name.Name, types.ExprString(se.X), bad))
+			return true
+		})
+	}
+	c.count("block_brace_lookups", n)
+	c.floor(rule, 1)
 }
